@@ -2,7 +2,12 @@ package checks
 
 import (
 	"bytes"
+
+	"github.com/jsightapi/jsight-schema-go-library/fs"
+
 	"fmt"
+	"github.com/jsightapi/jsight-api-go-library/core"
+	"github.com/jsightapi/jsight-api-go-library/kit"
 	"sort"
 	"strings"
 
@@ -32,6 +37,7 @@ func init() {
 		},
 		Families: []fw.Family{
 			{Name: "bans", N: constN(2400, 60000), Gen: genModelCase, Eval: c18Eval},
+			{Name: "option-reuse", N: constN(600, 20000), Gen: genModelCase, Eval: c18EvalReuse},
 		},
 		Floors: map[string]int64{"banned_hits_checked": 2000, "unaffected_checked": 2000},
 	})
@@ -196,4 +202,58 @@ func c18Eval(t *fw.T, c *fw.Case) {
 	}
 	t.Sample("bans/"+carrier, map[string]interface{}{"present": pres, "sets": sets})
 	_ = xrand.New
+}
+
+// c18EvalReuse: one Option value is kept and given to several cores, alone and together with other options; what a core
+// bans must depend on the options it was given, not on what other cores were given.
+func c18EvalReuse(t *fw.T, c *fw.Case) {
+	m, r := modelOf(c, gen.Options{MaxBlocks: 8})
+	rd := gen.Render(m, nil)
+	present := kindsInText(rd.Text)
+	var pres, absent []string
+	for _, k := range c18AllKinds {
+		if present[k] {
+			pres = append(pres, k)
+		} else {
+			absent = append(absent, k)
+		}
+	}
+	if len(absent) == 0 || len(pres) < 2 {
+		return
+	}
+	c.Docs = []run.Doc{run.Single([]byte(rd.Text))}
+	x := absent[r.Intn(len(absent))] // kept option: bans a kind that does not occur
+	y := pres[r.Intn(len(pres))]     // second option of the first core: bans a kind that does occur
+	ex, _ := run.BanEnum(x)
+	ey, _ := run.BanEnum(y)
+	kept := core.WithBannedDirectives(ex)
+	exec := func(oo ...core.Option) (string, string) {
+		defer func() { _ = recover() }()
+		j := kit.NewJApiFromFile(fs.NewFile(run.MemDir+"/root.jst", []byte(rd.Text)), oo...)
+		if je := j.ValidateJAPI(); je != nil {
+			return "rejected", je.Msg
+		}
+		return "accepted", ""
+	}
+	o0, _ := exec()
+	if o0 != "accepted" {
+		return
+	}
+	t.Count("executions")
+	// first core: kept + another option; second core: kept alone
+	o1, m1 := exec(kept, core.WithBannedDirectives(ey))
+	o2, m2 := exec(kept)
+	o3, m3 := exec(core.WithBannedDirectives(ey), kept)
+	o4, m4 := exec(kept)
+	t.Count("unaffected_checked")
+	t.Count("option_reuse_sequences")
+	if o1 != "rejected" || o3 != "rejected" {
+		t.Violation("ban-not-enforced:reuse", fmt.Sprintf("banning %s (present) together with a kept option banning %s: %s %q / %s %q", y, x, o1, m1, o3, m3))
+		return
+	}
+	if o2 != "accepted" || o4 != "accepted" {
+		t.Violation("ban-leaks-between-cores", fmt.Sprintf("a kept option bans only %s (which does not occur); after another core was given it together with a ban of %s, a core given the kept option alone answers %s %q / %s %q\n%s", x, y, o2, m2, o4, m4, rd.Text))
+		return
+	}
+	t.Distinct("reuse " + y)
 }
